@@ -349,10 +349,17 @@ func (fc *fctx) IntConst(v ssa.Value) (int, bool) {
 // constant, a bound parameter, a phi of such (minimum), or those plus/minus
 // constants.
 func (fc *fctx) IntLB(v ssa.Value, depth int) (int, bool) {
+	return fc.intLB(v, depth, map[*ssa.Phi]bool{})
+}
+
+// intLB: a phi that is being visited contributes the neutral element Inf, which
+// is sound for edges of the form phi+c with c >= 0 (induction on iterations)
+// and is rejected for any other use of the cyclic value.
+func (fc *fctx) intLB(v ssa.Value, depth int, visiting map[*ssa.Phi]bool) (int, bool) {
 	if c, ok := fc.IntConst(v); ok {
 		return c, true
 	}
-	if depth > 6 {
+	if depth > 8 {
 		return 0, false
 	}
 	switch x := v.(type) {
@@ -361,12 +368,14 @@ func (fc *fctx) IntLB(v ssa.Value, depth int) (int, bool) {
 			return c.V, true
 		}
 	case *ssa.Phi:
+		if visiting[x] {
+			return Inf, true
+		}
+		visiting[x] = true
+		defer delete(visiting, x)
 		m := Inf
 		for _, e := range x.Edges {
-			if e == v {
-				continue
-			}
-			c, ok := fc.IntLB(e, depth+1)
+			c, ok := fc.intLB(e, depth+1, visiting)
 			if !ok {
 				return 0, false
 			}
@@ -377,20 +386,39 @@ func (fc *fctx) IntLB(v ssa.Value, depth int) (int, bool) {
 		if m != Inf {
 			return m, true
 		}
+		if len(visiting) > 1 {
+			// every edge leads back to an enclosing phi being visited: neutral
+			return Inf, true
+		}
 	case *ssa.BinOp:
 		switch x.Op {
 		case token.ADD:
-			a, ok1 := fc.IntLB(x.X, depth+1)
-			b, ok2 := fc.IntLB(x.Y, depth+1)
+			a, ok1 := fc.intLB(x.X, depth+1, visiting)
+			b, ok2 := fc.intLB(x.Y, depth+1, visiting)
 			if ok1 && ok2 {
+				if a == Inf || b == Inf {
+					// cyclic value plus something: sound only if the other operand is >= 0
+					o := a
+					if a == Inf {
+						o = b
+					}
+					if o == Inf || o < 0 {
+						return 0, false
+					}
+					return Inf, true
+				}
 				return a + b, true
 			}
 		case token.SUB:
-			a, ok1 := fc.IntLB(x.X, depth+1)
+			a, ok1 := fc.intLB(x.X, depth+1, visiting)
 			b, ok2 := fc.IntConst(x.Y)
-			if ok1 && ok2 {
+			if ok1 && ok2 && a != Inf {
 				return a - b, true
 			}
+		}
+	case *ssa.Call:
+		if bi, ok := x.Call.Value.(*ssa.Builtin); ok && bi.Name() == "len" {
+			return 0, true
 		}
 	}
 	return 0, false
